@@ -152,7 +152,10 @@ def _one_sweep(rng, r, kernel, d, n, means, covs, dofs, L, Sinv, ass, beta, bk, 
         alpha = np.minimum(1.0, np.exp(beta * (ll1 - ll0) + fac))
     alpha = np.where(inside, alpha, 0.0)
     want = rng.random(n) < 0.5
-    urand = np.where(want, alpha * (1 - 1e-9), np.minimum(alpha * (1 + 1e-9) + 1e-300, 1.0))
+    # probes just below / just above alpha.  The margin (1e-6 relative) stays far above the rounding of log(alpha):
+    # with nu=1e6 the kernel's own 0.5*(nu+d)*log(1+q/nu) carries ~1e-10 of cancellation noise, and a margin of 1e-9
+    # produced one false alarm in 3e5 probes (alpha=3e-112) on the unchanged tree.
+    urand = np.where(want, alpha * (1 - 1e-6), np.minimum(alpha * (1 + 1e-6) + 1e-300, 1.0))
     exp_acc = inside & (urand < alpha)
     decisive = inside & (alpha > 1e-200) & (alpha < 1 - 1e-6)
     # ---- real kernel under injected randomness
@@ -470,7 +473,7 @@ def run():
     return ck.finish(
         rule="M3a: generated (d<=5, K<=3, means, SPD scale matrices incl. rho=0.9 and diagonal, nu in {0.7,2,5,30,1e6}, sigma, beta, boundary kind per "
              "coordinate) with gamma/normal/uniform draws served by the RNG interposer (innovations up to 30 sd so proposals leave the cube / wrap "
-             "repeatedly; uniforms at alpha(1+-1e-9)); M3b: cells kernel x target {exp face, truncated Gaussian, interior correlated, von Mises} x "
+             "repeatedly; uniforms at alpha(1+-1e-6)); M3b: cells kernel x target {exp face, truncated Gaussian, interior correlated, von Mises} x "
              "boundary {hard, periodic, reflective, mixed} x covariance {diag, rho 0.9} x nu x K x beta, exact inverse-CDF draws, paired z over "
              "13 test functions, flag |z|>5 confirmed on a fresh batch; non-trivial = decisive probe present / >2% of walkers moved",
         assumptions=["scipy.stats.multivariate_t and the closed-form tpCN reversibility t(u)q(u'|u)=t(u')q(u|u') as specification"],
